@@ -708,8 +708,12 @@ HandleElementResult QXmppOutgoingClient::handleElement(const QDomElement &nodeRe
     const QString ns = nodeRecv.namespaceURI();
 
     // give client opportunity to handle stanza
+    // (with TLS required, stanzas received over a link that is not encrypted yet are not handed to the client's extensions:
+    // they would answer them, e.g. version or ping requests, in clear)
     bool handled = false;
-    Q_EMIT elementReceived(nodeRecv, handled);
+    if (ns != ns_client || configuration().streamSecurityMode() != QXmppConfiguration::TLSRequired || socket()->isEncrypted()) {
+        Q_EMIT elementReceived(nodeRecv, handled);
+    }
     if (handled) {
         return Accepted;
     }
